@@ -77,17 +77,22 @@ pub fn exec(case: &Value) -> Value {
                 for k in 0..count {
                     let m = (from + k * stride) & 0x7F_FFFF;
                     let y = (m << 41) | (rng.next() >> 23);
-                    let st = inv_step(y);
-                    if st == 0 {
-                        continue;
-                    }
-                    match guard(|| d.sample(&mut Xorshift64(st))) {
-                        Some(x) => {
-                            mn = mn.min(key(x));
-                            mx = mx.max(key(x));
-                            n += 1;
+                    // (the short sweeps at the extreme mantissas: also with the bits below the mantissa all set and
+                    // all clear - an implementation may use more of the output than the 23 bits the current one does)
+                    let ys = if count <= 4 { vec![y, (m << 41) | ((1 << 41) - 1), m << 41, (m << 41) | (0x1FF << 32), (m << 41) | (0x180 << 32)] } else { vec![y] };
+                    for y in ys {
+                        let st = inv_step(y);
+                        if st == 0 {
+                            continue;
                         }
-                        None => panic = 1,
+                        match guard(|| d.sample(&mut Xorshift64(st))) {
+                            Some(x) => {
+                                mn = mn.min(key(x));
+                                mx = mx.max(key(x));
+                                n += 1;
+                            }
+                            None => panic = 1,
+                        }
                     }
                 }
                 o.insert("lo".into(), json!(key(lo)));
@@ -434,7 +439,14 @@ pub fn gen(args: &Args, out: &mut dyn Write) {
     let nb = if thorough { 20000 } else { 2000 };
     for i in 0..nb {
         let s = if i < extreme.len() * 4 { extreme[i % extreme.len()] } else { rng.next() | 1 };
-        let (p, p01) = *rng.pick(&[(0.0f32, 0), (-0.5, 0), (-0.0, 0), (f32::NEG_INFINITY, 0), (1.0, 1), (1.5, 1), (f32::INFINITY, 1), (1.0000001, 1)]);
+        let ps = [(0.0f32, 0), (-0.5, 0), (-0.0, 0), (f32::NEG_INFINITY, 0), (1.0, 1), (1.5, 1), (f32::INFINITY, 1), (1.0000001, 1)];
+        let (p, p01) = *rng.pick(&ps);
+        if i < extreme.len() {
+            // every extreme state with every probability
+            for (p, p01) in ps {
+                emit(out, json!({"op": "bern", "s": limbs(extreme[i]), "pb": format!("{:08x}", p.to_bits()), "p01": p01}));
+            }
+        }
         emit(out, json!({"op": "bern", "s": limbs(s), "pb": format!("{:08x}", p.to_bits()), "p01": p01}));
     }
     // rejection-sampled and normalised distributions
